@@ -130,6 +130,8 @@ func (ss schedsim) Gen(prop, tier string, ts *sim.Tapes) *Case {
 	return c
 }
 
+type stopRun struct{}
+
 type mtWorld struct {
 	db        *bolt.DB
 	cfg       work.Config
@@ -228,8 +230,10 @@ func (ss schedsim) runInBubble(c *Case, dir string, out *Outcome) {
 	cfg := c.Prog.Cfg
 	w := &sim.World{MapOrder: cfg.MapOrder, Order: orderTape, Sched: s}
 	var m *mtWorld
-	if c.Prop == "C06" {
-		// page-set monitor under concurrency: page sets are computed by the
+	if c.Prop == "C06" || c.Prop == "C02" {
+		// page-set monitor under concurrency (C06 as stated; for C02 it is the
+		// mechanism-level form of "the snapshot does not change": a page of an
+		// open reader's version is about to be overwritten): page sets are computed by the
 		// decoder the moment a commit's meta write is complete (the writer
 		// still holds the writer lock), and every pwrite is checked against the
 		// sets of the newest committed version and of every open reader
@@ -263,7 +267,7 @@ func (ss schedsim) runInBubble(c *Case, dir string, out *Outcome) {
 				}
 				for pg := first; pg <= last; pg++ {
 					if set[pg] {
-						m.fail("C06", "overwrite-visible-page", "pwrite off=%d len=%d touches page %d which belongs to %s (txid %d)", off, n, pg, what, id)
+						m.fail(c.Prop, "overwrite-visible-page", "pwrite off=%d len=%d touches page %d which belongs to %s (txid %d)", off, n, pg, what, id)
 						return
 					}
 				}
@@ -276,7 +280,7 @@ func (ss schedsim) runInBubble(c *Case, dir string, out *Outcome) {
 					m.probes["writes-checked-against-old-reader"]++
 				}
 			}
-			if slot := uint64(m.newest % 2); first <= slot && slot <= last {
+			if slot := uint64(m.newest % 2); c.Prop == "C06" && first <= slot && slot <= last {
 				m.fail("C06", "overwrite-newest-meta", "pwrite off=%d len=%d hits meta slot %d holding the newest committed meta (txid %d)", off, n, slot, m.newest)
 			}
 		}
@@ -305,7 +309,7 @@ func (ss schedsim) runInBubble(c *Case, dir string, out *Outcome) {
 	m.versions[pe.LastTxid] = pe.Cur
 	m.lastRet = pe.LastTxid
 	m.newest = pe.LastTxid
-	if c.Prop == "C06" {
+	if c.Prop == "C06" || c.Prop == "C02" {
 		pe.CheckFile("prelude")
 		if pe.LastDec != nil {
 			m.used[pe.LastTxid] = pe.LastDec.UsedSet()
@@ -343,7 +347,9 @@ func (ss schedsim) runInBubble(c *Case, dir string, out *Outcome) {
 	c.Tapes["sched"] = append([]uint64(nil), schedTape.Rec...)
 	c.Tapes["order"] = append([]uint64(nil), orderTape.Rec...)
 	if s.Deadlock == "" && !s.Stuck {
-		if !m.closed {
+		// after a violation tasks may have stopped inside transactions: do not
+		// wait for them in Close (the DB is simply abandoned)
+		if !m.closed && len(m.viol) == 0 {
 			if err := m.db.Close(); err != nil {
 				m.fail(c.Prop, "close-error", "Close: %v", err)
 			}
@@ -374,10 +380,20 @@ func (ss schedsim) runInBubble(c *Case, dir string, out *Outcome) {
 func (ss schedsim) client(m *mtWorld, ci int, steps []work.Step, t *sim.Task) {
 	e := work.NewExec("", m.cfg)
 	e.CursorStep = func() {
+		if len(m.viol) > 0 {
+			panic(stopRun{}) // a violation is already recorded: do not keep walking a possibly corrupted tree
+		}
 		if !m.s.Draining {
 			t.Pause("client.chunk")
 		}
 	}
+	defer func() {
+		if r := recover(); r != nil {
+			if _, ok := r.(stopRun); !ok {
+				panic(r)
+			}
+		}
+	}()
 	flush := func() {
 		for _, v := range e.Viol {
 			m.viol = append(m.viol, v)
